@@ -44,7 +44,7 @@ func (b *Broker) send(c *Conn, p *codec.Packet) {
 
 // SendRaw queues arbitrary bytes (hostile broker).
 func (b *Broker) SendRaw(c *Conn, raw []byte, note string) {
-	b.w.Rec.Emit(Ev{"e": "bsraw", "c": c.id, "n": len(raw), "note": note})
+	b.w.Rec.Emit(Ev{"e": "bsraw", "c": c.id, "n": len(raw), "note": note, "violation": false})
 	c.Inject(raw)
 }
 
